@@ -63,6 +63,10 @@ ASSUMPTIONS = ["tolerance 1e-6 p.u. / 1e-6 degree (doc/gridequivalent/gridequiva
                "with phase shift only in mode phase-shift",
                "all buses supplied: cases with unsupplied buses are skipped (log message of _check_network: 'suggested to remove "
                "them ... before starting the grid equivalent calculation'); bus in_service flags are never False",
+               "plausible operating points only: voltage setpoints of gens/ext_grids in 0.9925..1.01, cases with a branch loading "
+               "> 300 % or a bus voltage outside 0.9..1.1 p.u. are skipped (otherwise the sub-problems with fixed boundary voltages "
+               "have several solutions and the power flows inside get_equivalent, started from the default initialisation and not "
+               "from the given results, may find another one; seen with 560 % loading and 24 Mvar circulating on a 10-kV line)",
                "at most one ext_grid / slack gen per bus ('assert ... only one slack at individual bus' in ward_generation.py)",
                "no dclines, no unsupplied islands, no asymmetric_load/sgen, no controllers, no cost functions, return_internal=True, "
                "ward_type='ward_injection', adapt_va_degree=False (defaults)",
@@ -257,6 +261,7 @@ def regions(net, case):
             reg["fused"] = {int(b): int(min(_closure([b], bb0))) for b in reg["boundary"]}
             zsw = net.switch[(net.switch.et == "b") & net.switch.closed & (net.switch.z_ohm.fillna(0.0) > 0)]
             reg["z_switch_at_boundary"] = bool((zsw.bus.isin(reg["boundary"]) & zsw.element.isin(reg["boundary"])).any())
+            reg["z_switch_external"] = bool((zsw.bus.isin(reg["external"]) | zsw.element.isin(reg["external"])).any())
             return reg
     return None
 
@@ -334,7 +339,12 @@ def _angle_diff(a, b):
 # root causes that do not depend on the equivalent type get one signature for all types they apply to
 SCOPE = {"phase-shift-trafo": "ward+xward", "slack-gen-at-boundary": "ward+xward", "fused-boundary-buses-given": "ward+xward",
          "xward-element-in-external-area/sn_mva!=1": "ward+xward", "impedance-switch-between-boundary-buses": "any",
+         "impedance-switch-at-external-bus": "any",
          "open-ended-branch-between-internal-and-external-bus": "any"}
+
+
+RAISED_ANY = {"in-service-gen-behind-another-gen-at-boundary-bus"}
+SCOPE["in-service-gen-behind-another-gen-at-boundary-bus"] = "any"
 
 
 def _sig(kind, eq_type, f):
@@ -374,6 +384,8 @@ def facts(net, reg, case, net_eq=None):
         f.append("ward-or-xward-element-at-boundary-bus")
     if reg["z_switch_at_boundary"]:
         f.append("impedance-switch-between-boundary-buses")
+    if reg["z_switch_external"]:
+        f.append("impedance-switch-at-external-bus")
     if eq == "rei" and len(net.impedance):
         im = net.impedance[net.impedance.in_service & ((net.impedance.rft_pu != net.impedance.rtf_pu) | (net.impedance.xft_pu != net.impedance.xtf_pu))]
         if (im.from_bus.isin(E) | im.to_bus.isin(E)).any():
@@ -420,6 +432,11 @@ def _cause(net, reg, case, e):
             return "rei-kind-without-original-element/gen"
         if len(_at(net, "motor", E)) and len(net.load) and not net.load.bus.isin(E).any():
             return "rei-kind-without-original-element/load"
+    if where == "ValueError@grid_equivalents/auxiliary.py:add_ext_grids_to_boundaries" and len(net.gen):
+        # vm_pu of the auxiliary ext_grids: in-service gens at boundary buses vs. gens that are not a duplicate of ANY earlier gen
+        first = ~net.gen.bus.duplicated()
+        if (net.gen.bus.isin(reg["boundary"]) & net.gen.in_service & ~first).any():
+            return "in-service-gen-behind-another-gen-at-boundary-bus"
     want = {"ValueError@grid_equivalents/ward_generation.py:_replace_external_area_by_wards": ("slack-gen-at-boundary", "ward-element-at-boundary-bus"),
             "ValueError@grid_equivalents/ward_generation.py:_replace_external_area_by_xwards": ("slack-gen-at-boundary", "xward-element-at-boundary-bus"),
             "ValueError@grid_equivalents/ward_generation.py:_calculate_ward_and_impedance_parameters": ("fused-boundary-buses-given",),
@@ -453,6 +470,13 @@ def check(case):
         # "There are some inactive buses. It is suggested to remove them ... before starting the grid equivalent calculation."
         res.skipped = "unsupplied-buses"
         return res
+    loading = max([net.res_line.loading_percent.max() if len(net.line) else 0.0,
+                   net.res_trafo.loading_percent.max() if len(net.trafo) else 0.0,
+                   net.res_trafo3w.loading_percent.max() if len(net.trafo3w) else 0.0])
+    if not loading <= 300.0 or net.res_bus.vm_pu.min() < 0.9 or net.res_bus.vm_pu.max() > 1.1:
+        # implausible operating point (see _tame): several solutions of the sub-problems get_equivalent solves
+        res.skipped = "implausible-operating-point"
+        return res
     reg = regions(net, case)
     if reg is None:
         res.skipped = "no-valid-split"
@@ -484,7 +508,8 @@ def check(case):
         if kind == "skip" and what == "not-converged":
             res.skipped = "equivalent-not-converged"
         else:
-            res.fail("raised/%s/%s/%s" % (eq_type, exc_sig(raised), _cause(net, reg, case, raised)),
+            cause = _cause(net, reg, case, raised)
+            res.fail("raised/%s/%s/%s" % (SCOPE.get(cause, eq_type) if cause in RAISED_ANY else eq_type, exc_sig(raised), cause),
                      error=repr(raised)[:300], regions=_short(reg), kw=case["kw"])
         return res
     if net_eq is None:
@@ -544,7 +569,7 @@ def check(case):
                  regions=_short(reg), kw=case["kw"])
     res.nontrivial = bool(has_load and has_gen)
     res.label("ext-buses:%s" % (len(ext) if len(ext) < 4 else "4+"), "boundary:%s" % min(len(reg["boundary"]), 3))
-    res.label("dev<1e-%d" % min(12, max(0, int(-math.log10(max(worst[0] * 1e-6, 1e-12))))))
+    res.label("dev<1e-%d" % min(12, max(0, int(-math.log10(max(worst[0] * 1e-6, 1e-12))))) if math.isfinite(worst[0]) else "dev:nan")
     if res.nontrivial:
         res.label("ext-load+gen")
     if _has(net, ("ext_grid",), ext):
